@@ -25,6 +25,8 @@ ObsInit == [types |-> <<>>,        \* layer types bottom -> top
             lac |-> EmptyMap,      \* thr -> taps live when its pending cancel() was issued
             arrived |-> {},        \* <<f, i>>: some cancel() has arrived at the future tap i returned for f
                                    \* (a second, concurrent cancel() returns True without forwarding again)
+            ready |-> EmptyMap,    \* <<f, i>> -> time at which tap i's submit returned that future to the layer above
+            lacq |-> EmptyMap,     \* thr -> taps live AND handed over at an earlier instant than its pending cancel()
             rstop |-> {},          \* <<f, i>>: some cancel() call on the future of retry layer i has returned
             cfalse_run |-> {},     \* futures whose cancel() returned False because the callable was running
             down |-> FALSE]
@@ -37,12 +39,17 @@ ObsNext(st, e) ==
     [] e.ev = "InvokeEnd" -> [st EXCEPT !.running = @ \ {e.f}]
     [] e.ev = "DelegateSubmit" /\ TapIdx(e.s) > 0 ->
           [st EXCEPT !.live = @ \cup {<<e.f, TapIdx(e.s)>>}, !.finished = @ \ {<<e.f, TapIdx(e.s)>>}]
+    [] e.ev = "DelegateSubmitRet" /\ TapIdx(e.s) > 0 -> [st EXCEPT !.ready = Put(@, <<e.f, TapIdx(e.s)>>, e.t)]
     [] e.ev = "DelegateState" /\ e.s \in Terminal ->
           [st EXCEPT !.live = @ \ {<<e.f, e.c>>},
                      !.finished = IF e.s = "FINISHED" THEN @ \cup {<<e.f, e.c>>} ELSE @]
     [] e.ev = "CancelCall" ->
           [st EXCEPT !.ccall = @ \cup {e.f}, !.crun = Put(@, e.thr, e.f \in st.running),
                      !.lac = Put(@, e.thr, {p[2] : p \in {q \in st.live : q[1] = e.f}}),
+                     \* (virtual time only advances when no thread can run: a hand-over begun at an earlier instant
+                     \*  is complete)
+                     !.lacq = Put(@, e.thr, {p[2] : p \in {q \in st.live : q[1] = e.f /\ Has(st.ready, q)
+                                                                        /\ st.ready[q] < e.t}}),
                      !.arrived = @]
     [] e.ev = "CancelArrived" /\ TapIdx(e.s) > 0 ->
           [st EXCEPT !.arrived = @ \cup {<<e.f, TapIdx(e.s)>>}]
@@ -70,6 +77,12 @@ Clauses(st, e) ==
      <<"C06_Forwarded",
         (e.ev = "CancelRet" /\ e.a = 1 /\ Has(st.lac, e.thr)) =>
             \A i \in st.lac[e.thr] : <<e.f, i>> \in st.arrived \/ <<e.f, i>> \in st.finished>>,
+     <<"C06_ForwardedEvenIfRefused",
+        \* a cancel() that comes back False was forwarded all the same - unless the callable was running when it was
+        \* issued (then the refusal may come from any layer on the way down)
+        (e.ev = "CancelRet" /\ e.a = 0 /\ Has(st.lacq, e.thr) /\ ~Get(st.crun, e.thr, FALSE) /\ e.f \notin st.running) =>
+            \A i \in st.lacq[e.thr] : <<e.f, i>> \in st.arrived \/ <<e.f, i>> \in st.finished
+                                     \/ <<e.f, i>> \notin st.live>>,
      <<"C02_CancelNeverRaises",
         e.ev = "CancelRaise" => FALSE>> >>
 =============================================================================
